@@ -1906,6 +1906,7 @@ private:
     {
         if (secondDone)
         {
+            rem.reduce(); // divide() compares lengths first and needs no leading zero words
             rem /= max_word;
         }
         if ( x > 0 )
